@@ -235,6 +235,13 @@ fn shim_copy_raw<'b, W: Write + io::Seek>(src: &mut ZipFileReader<'b>, w: &mut Z
 impl DateTime {
 //@use dt_datepart nobody
 //@use dt_timepart nobody
+//@use dt_from_date_and_time nobody
+//@use dt_year nobody
+//@use dt_month nobody
+//@use dt_day nobody
+//@use dt_hour nobody
+//@use dt_minute nobody
+//@use dt_second nobody
 }
 //@impl src/write.rs | impl<W: Write + io::Seek> ZipWriter<W>
 impl<W: Write + io::Seek> ZipWriter<W> {
